@@ -21,9 +21,10 @@ namespace c01 {
 static std::vector<std::pair<size_t, std::vector<size_t>>>* g_collected = nullptr;
 static void collectPair(size_t q, const std::vector<size_t>& S) { if (g_collected) g_collected->push_back({q, S}); }
 // step-level invariant: within one step (one fixed pair, one rule) every computed post-image must be subsumed by an entry of the step's local antichain
-struct StepLog { std::vector<std::pair<size_t, std::vector<size_t>>> posts, kept; bool bad = false; std::string why; };
+struct StepLog { std::vector<std::pair<size_t, std::vector<size_t>>> posts, kept; std::set<std::pair<size_t, std::vector<size_t>>> popped; bool bad = false; std::string why; };
 static StepLog* g_step = nullptr;
 static void stepObserver(int kind, size_t q, const std::vector<size_t>& S) { if (!g_step) return; StepLog& L = *g_step;
+  if (kind == 0) { std::vector<size_t> t(S); std::sort(t.begin(), t.end()); L.popped.insert({q, t}); return; }   // the pair taken from the work-list (hook 5)
   if (kind == 1) L.posts.push_back({q, S}); else if (kind == 2) L.kept.push_back({q, S});
   else { for (auto& p : L.posts) { bool sub = false; for (auto& k : L.kept) if (k.first == p.first && std::includes(p.second.begin(), p.second.end(), k.second.begin(), k.second.end())) { sub = true; break; }
       if (!sub && !L.bad) { L.bad = true; L.why = "post-image (" + std::to_string(p.first) + ",{"; for (auto x : p.second) L.why += std::to_string(x) + " "; L.why += "}) computed in a step is not subsumed by any entry the step keeps:"; for (auto& k : L.kept) { L.why += " (" + std::to_string(k.first) + ",{"; for (auto x : k.second) L.why += std::to_string(x) + " "; L.why += "})"; } } }
@@ -35,6 +36,10 @@ static void antichainCheck(const ExplicitTreeAut& a, const ExplicitTreeAut& b, C
     VATA::verifUpwardInclusionObserver = nullptr; g_collected = nullptr; VATA::verifUpwardInclusionStepObserver = nullptr; g_step = nullptr; c.count("antichain_checks");
     if (steps.bad) { c.viol("upward antichain (internal)", "post_image_dropped_without_being_subsumed", {}, what + "\nprepared A: " + A2.str() + " | prepared B: " + B2.str() + "\n" + steps.why, w); return; }
     if (!r) return; c.count("antichain_checks_included");
+    // every pair of the final antichain must have been taken from the work-list (= expanded as the fixed position) at some point: a pair that is dropped from the
+    // work-list but stays in the antichain is never expanded, although it keeps pruning others (seed C01e)
+    for (auto& p : got) { std::vector<size_t> t(p.second); std::sort(t.begin(), t.end()); if (!steps.popped.count({p.first, t})) { std::string e = "(" + std::to_string(p.first) + ",{"; for (auto x : t) e += std::to_string(x) + " "; e += "})";
+        c.viol("upward antichain (internal)", "antichain_entry_never_taken_from_the_worklist", {}, what + "\nprepared A: " + A2.str() + " | prepared B: " + B2.str() + "\nthe final antichain holds " + e + ", which was never expanded", w); return; } }
     auto R = ref::reachablePairs(A2, B2); std::set<std::pair<size_t, std::set<size_t>>> G; for (auto& p : got) G.insert({p.first, std::set<size_t>(p.second.begin(), p.second.end())});
     auto show = [](const std::set<std::pair<size_t, std::set<size_t>>>& X) { std::string s; for (auto& p : X) { s += "(" + std::to_string(p.first) + ",{"; for (auto q : p.second) s += std::to_string(q) + " "; s += "}) "; } return s; };
     for (auto& g : G) if (!R.count(g)) { c.viol("upward antichain (internal)", "stored_pair_is_not_reachable", {}, what + "\nprepared A: " + A2.str() + " | prepared B: " + B2.str() + "\nantichain: " + show(G) + "\nreachable pairs: " + show(R), w); return; }
@@ -100,6 +105,7 @@ std::vector<std::string> pairFeatures(const ref::TA& A, const ref::TA& B) {
 // source of pairs: either all pairs of one domain with a bound on the total rule count, or the full product of two (trimmed) domains
 struct PairSrc { std::shared_ptr<dom::TADomain> D, DB; std::shared_ptr<dom::PairIndex> P; uint64_t total = 0;
   std::pair<ref::TA, ref::TA> get(uint64_t idx) const { if (P) { auto ij = P->get(idx); return {D->get(ij.first), D->get(ij.second)}; } return {D->get(idx / DB->size()), DB->get(idx % DB->size())}; } };
+static bool g_upOnly = false;   // only the upward algorithm without simulation + its internal oracles (used to reach bigger B operands)
 static bool g_hugeNumbers = false;   // third numbering: sparse state numbers in the millions / beyond 2^40 (raw operands, no-simulation variants)
 static void runSrc(Env& env, const std::string& stage, PairSrc S, int n, bool numberings);
 static void runDomain(Env& env, const std::string& stage, int n, const dom::Alphabet& sig, int perSide, int totalMax, bool numberings) {
@@ -110,6 +116,9 @@ static void runDomain(Env& env, const std::string& stage, int n, const dom::Alph
 static void runTrim(Env& env, const std::string& stage, int n, const dom::Alphabet& sig, int ka, int kb, bool numberings) {
   PairSrc S; S.D = std::make_shared<dom::TADomain>(n, sig, ka, false, true); S.D->keepTrimmedOnly(); S.DB = std::make_shared<dom::TADomain>(n, sig, kb, false, true); S.DB->keepTrimmedOnly(); S.total = (uint64_t)S.D->size() * S.DB->size();
   env.noteNum(stage + ".trimmed_automata_A", S.D->size()); env.noteNum(stage + ".trimmed_automata_B", S.DB->size()); runSrc(env, stage, S, n, numberings); }
+static void runTrim2(Env& env, const std::string& stage, int nA, int nB, const dom::Alphabet& sig, int ka, int kb) {
+  PairSrc S; S.D = std::make_shared<dom::TADomain>(nA, sig, ka, false, true); S.D->keepTrimmedOnly(); S.DB = std::make_shared<dom::TADomain>(nB, sig, kb, false, true); S.DB->keepTrimmedOnly(); S.total = (uint64_t)S.D->size() * S.DB->size();
+  env.noteNum(stage + ".trimmed_automata_A", S.D->size()); env.noteNum(stage + ".trimmed_automata_B", S.DB->size()); runSrc(env, stage, S, nB, false); }
 static void runSrc(Env& env, const std::string& stage, PairSrc S, int n, bool numberings) {
   auto D = S.D;
   ParallelOpts o; o.stage = stage; o.size = S.total; o.block = 512; o.caseTimeout = 10;
@@ -135,6 +144,7 @@ static void runSrc(Env& env, const std::string& stage, PairSrc S, int n, bool nu
       ExplicitTreeAut a = dom::build(A2), b = dom::build(B2, nv == 1);
       antichainCheck(a, b, c, "A: " + D->str(A2) + " | B: " + D->str(B2), A.rules.size() + B.rules.size());
       for (auto& v : VARIANTS) {
+        if (g_upOnly && (v.down || v.sim)) continue;
         if (nv >= 1 && v.sim) continue;   // sim variants always see prepared operands; renumbering is covered by nv==0 + C19
         std::string what; g_internalViolation.clear(); int got = callIncl(a, b, v, &what);
         c.count("calls");
@@ -177,6 +187,8 @@ static Register r0("c01.unimpl", "C01", "unimplemented InclParam flag combinatio
 static Register r1("c01.n2s2k2", "C01", "pairs of TA(2,{a:0,b:0,g:2},<=2 rules per side), 8 variants, 2 numberings",
                    [](Env& e) { runDomain(e, "c01.n2s2k2", 2, dom::Sigma2(), 2, 4, true); });
 static Register rh("c01.huge.n2s2k2", "C01", "pairs of TA(2,{a:0,b:0,g:2},<=2 rules per side) with a third numbering: A on 1000003q+17, B on 2^40+3q (sparse, huge state numbers), no-simulation variants on the raw operands", [](Env& e) { g_hugeNumbers = true; runDomain(e, "c01.huge.n2s2k2", 2, dom::Sigma2(), 2, 4, true); });
+static Register ru("c01.up.abch.a4b6", "C01", "upward algorithm without simulation + its internal oracles (final antichain sound/complete, every entry expanded, no post-image lost): every pair of TRIMMED automata A in TA(2,{a:0,b:0,c:0,h:1},<=4) x B in TA(3,same,<=6) - three leaf symbols and a unary one let two equal-size incomparable macro-states of one state wait while a smaller one arrives", [](Env& e) { g_upOnly = true; runTrim2(e, "c01.up.abch.a4b6", 2, 3, dom::Alphabet{{0, 0, 0, 1}, {"a", "b", "c", "h"}}, 4, 6); });
+static Register ru2("c01.up.abch.a3b5", "C01", "upward algorithm without simulation + its internal oracles: every pair of TRIMMED automata A in TA(2,{a:0,b:0,c:0,h:1},<=3) x B in TA(3,same,<=5)", [](Env& e) { g_upOnly = true; runTrim2(e, "c01.up.abch.a3b5", 2, 3, dom::Alphabet{{0, 0, 0, 1}, {"a", "b", "c", "h"}}, 3, 5); });
 static Register r2("c01.n2s2k3", "C01", "pairs of TA(2,{a:0,b:0,g:2},<=3 rules per side), 8 variants, 2 numberings",
                    [](Env& e) { runDomain(e, "c01.n2s2k3", 2, dom::Sigma2(), 3, 6, true); });
 static Register r3("c01.n2s3k2", "C01", "pairs of TA(2,{a:0,b:0,f:1,g:2},<=2 rules per side), 8 variants, 2 numberings",
